@@ -144,8 +144,9 @@ class STIXPatternVisitorForSTIX2():
             return children[0]
         else:
             if isinstance(children[0], _BooleanExpression) and same_boolean_operator(children[0].operator, children[1]):
-                children[0].operands.append(children[2])
-                return children[0]
+                # (a new expression: the object types it can be satisfied
+                # with depend on every operand, not on the first two)
+                return self.instantiate("OrBooleanExpression", children[0].operands + [children[2]])
             else:
                 return self.instantiate("OrBooleanExpression", [children[0], children[2]])
 
@@ -157,8 +158,7 @@ class STIXPatternVisitorForSTIX2():
             return children[0]
         else:
             if isinstance(children[0], _BooleanExpression):
-                children[0].operands.append(children[2])
-                return children[0]
+                return self.instantiate("AndBooleanExpression", children[0].operands + [children[2]])
             else:
                 return self.instantiate("AndBooleanExpression", [children[0], children[2]])
 
